@@ -11,6 +11,7 @@ import ZstdVerif.Lemmas.LitRT
 import ZstdVerif.Lemmas.SeqRT
 import ZstdVerif.Lemmas.FrameRT
 import ZstdVerif.Lemmas.BlockRT
+import ZstdVerif.Lemmas.DictTablesRT
 import ZstdVerif.Lemmas.NCountRT
 import ZstdVerif.Lemmas.SpreadRT
 import ZstdVerif.Lemmas.DescribedTables
@@ -657,5 +658,26 @@ theorem exec_of_validParse_frame (dict pre prev x lits : ByteArray) (seqs : List
 example : Rep.resolve ⟨1, 4, 8⟩ (Rep.finalizeOffBase 4 ⟨1, 4, 8⟩ false) 0 = (4, ⟨4, 1, 8⟩) := by decide
 
 example : (BitR.init (ByteArray.mk #[0x05]) 0 1).toOption.map (·.left) = some 2 := by decide
+
+/-! ### frames started from tables both sides already hold (a dictionary's): Lemmas/DictTablesRT.lean -/
+
+/-- **roundtrip_from_tables**: `roundtrip_treeless` for a block loop started from ANY entropy state the encoder and the decoder share:
+a positive repeat-offset history `rep0`, previous sequence-table decisions `pt0` and a previous Huffman table `hp0` whose decoding tables
+the decoder's loaded dictionary carries (`BlockRT.EntMatch`, `BlockRT.HufMatch`).  The FIRST block with sequences may then say
+`set_repeat`, the first block with literals may be treeless.  `roundtrip_treeless` is the instance `repStart`, `none`, `none`; with
+the tables of a formatted dictionary (`Props.C08.loadD_tables_match`) this is `Props.C08.dict_tables_roundtrip`: the restriction "a
+dictionary's tables are not offered for repetition" of `roundtrip` / `roundtrip_treeless` is lifted there. -/
+theorem roundtrip_from_tables (rep0 : Rep.R) (hpos : BlockRT.RepPos rep0) (pt0 : Option BlockEnc.Tables) (hp0 : Option BlockEnc.HufTab)
+    (a : HeaderW.HArgs) (bs : List BlockEnc.BlockChoice2) (x : ByteArray) (dict : Frame.Dict)
+    (hok : DictTablesRT.FrameOKFromT dict.content dict.id rep0 pt0 hp0 a bs x) (hrep0 : SeqRT.repOf dict.ent.rep = rep0)
+    (hem : BlockRT.EntMatch pt0 dict.ent) (hhm : BlockRT.HufMatch hp0 dict.ent)
+    (cap : Nat) (hcap : x.size ≤ cap) (o : Frame.Opts) (hml : o.magicless = false) (hmb : o.maxBlockSize = 0) :
+    ∃ traces, Frame.decompressAll (DictEnc.serializeFrameFromT rep0 pt0 hp0 a bs x) dict cap o = .ok (x, traces) :=
+  DictTablesRT.frame_roundtrip_fromT rep0 hpos pt0 hp0 a bs x dict hok hrep0 hem hhm cap hcap o hml hmb
+
+/-- the frames of `roundtrip` / `roundtrip_treeless` are the frames started from `repStartValue` and no tables -/
+theorem serializeFrame2_eq_fromT (a : HeaderW.HArgs) (bs : List BlockEnc.BlockChoice2) (x : ByteArray) :
+    BlockEnc.serializeFrame2 a bs x = DictEnc.serializeFrameFromT BlockEnc.repStart none none a bs x :=
+  DictTablesRT.serializeFrame2_eq_fromT a bs x
 
 end ZstdVerif.Props.C01
